@@ -242,15 +242,10 @@ def form_case(ctx, els, directed=None):
     # the oracle's classification: the PINNED lexicon and sets (= default_is_dynamic of the source as long as
     # lexer_rules_pinned / dynamic_sets_pinned / classification_is_pinned check; independent of the source afterwards)
     with_default = [q for q, _, _ in walked if q["default"]]
-    pinned = ctx.driver.call("lexer.pinned", items=[[q["default"], q["type"]] for q in with_default]
-                             + [[q["default"], F.data_type(q["type"])] for q in with_default]) if with_default else []
-    dyn_by_name = {q["name"]: bool(b) for q, b in zip(with_default, pinned)}
-    if mdyn is not None and any(mdyn.get(n) != b for n, b in dyn_by_name.items()):
-        ctx.mismatch("classification of a default: current tables vs pinned lexicon", case, mdyn, dyn_by_name)
-    # the hyphen exception is a rule about DATA types; a type spelled otherwise (`datetime`, `q date`, `gps`, …) must be
-    # classified like its data type (finding F47 where the code, which tests the type *name*, disagrees)
-    dyn = {q["name"]: bool(b) for q, b in zip(with_default, pinned[len(with_default):])}
-    alias_hyphen = {n for n in dyn if dyn[n] != dyn_by_name[n]}
+    pinned = ctx.driver.call("lexer.pinned", items=[[q["default"], q["type"]] for q in with_default]) if with_default else []
+    dyn = {q["name"]: bool(b) for q, b in zip(with_default, pinned)}
+    if mdyn is not None and any(mdyn.get(n) != b for n, b in dyn.items()):
+        ctx.mismatch("classification of a default: current tables vs pinned lexicon", case, mdyn, dyn)
     ctx.count("value:relative-reference", sum(1 for x in obs["sets"] + obs["trigs"] if x[4] and " ../" in x[4])
               + sum(1 for cs in obs["binds"].values() for c in cs if c and " ../" in c))
     ctx.count("value:absolute-reference", sum(1 for x in obs["sets"] + obs["trigs"] if x[4] and " /data/" in x[4]))
@@ -267,10 +262,7 @@ def form_case(ctx, els, directed=None):
         cls = "none" if not q["default"] else ("dynamic" if is_dyn else "static")
         ctx.count(f"default:{q.get('dclass', '?')}:{cls}:{'repeat' if reps else 'flat'}")
         exp_text = q["default"] if cls == "static" else ""
-        site = {"q": q["name"], "type": q["type"], "default": q["default"], "path": p, "class": cls,
-                "alias_hyphen": q["name"] in alias_hyphen, "data_type": F.data_type(q["type"])}
-        if q["name"] in alias_hyphen:
-            ctx.count("default:alias-of-hyphen-type")
+        site = {"q": q["name"], "type": q["type"], "default": q["default"], "path": p, "class": cls, "data_type": F.data_type(q["type"])}
         if inst != [exp_text]:
             ctx.fail(Failure("instance-text", f"{cls} default {q['default']!r} ({q['type']}): instance node text {inst!r}, expected [{exp_text!r}]", case, extra=site))
         if any(t != exp_text for t in tmpl) or bool(tmpl) != bool(reps):
@@ -309,7 +301,7 @@ def form_case(ctx, els, directed=None):
         else:
             if trigs:
                 ctx.fail(Failure("unexpected-trigger-node", f"{p} has no trigger but nested set-nodes {trigs!r}", case))
-            if q["calc"] and not (len(calcs) == 1 and value_ok(q["calc"], reps, info, calcs[0])):
+            if q["calc"] and not (len(calcs) == 1 and value_ok(F.bind_conv(q["calc"]), reps, info, calcs[0])):
                 ctx.fail(Failure("calculate-lost", f"{p}: calculation {q['calc']!r} without trigger: bind calculate {calcs!r}", case))
             if not q["calc"] and has_calc_attr:
                 ctx.fail(Failure("unexpected-calculate", f"{p}: bind calculate {calcs!r} without calculation", case))
@@ -344,7 +336,15 @@ def directed_forms():
                                                    {"k": "grp", "name": "g", "kids": [q("d", default="now()"), q("e", "date", default="2020-01-01"),
                                                                                       {"k": "rep", "name": "r2", "kids": [q("f", "integer", default="1 + 1"), q("f2", default="${a}")]}]}]},
                 q("z", default="uuid()")])
-    # F47 (deterministic): other spellings of the hyphen data types with a lone `-` token in the default
+    # calculation texts that an alias table converts (yes/no/true/false spellings): with a trigger the text goes RAW into
+    # the nested setvalue and nothing into the bind; without a trigger the bind carries the converted text
+    for i, t in enumerate(F.alias_texts()):
+        out.append([dict(a), q("c", "calculate", calc=t, trigger="${a}", labelled=False), q("d", ["text", "integer", "select_one L"][i % 3], calc=t, trigger="${a}"),
+                    q("e", "calculate", calc=t, labelled=False), q("f", "decimal", calc=t)])
+    # d989f12: a hyphenated date/geo default stays dynamic when a reference or a function call occurs anywhere in it
+    out.append([dict(a), q("d1", "date", default="2020-01-01 - ${a}"), q("d2", "q date", default="1 - today()"),
+                q("d3", "gps", default="- ${a}"), q("d4", "dateTime", default="1 - 2"), q("d5", "geopoint", default="now() - 1")])
+    # former F47 (fixed by 5a69025; regression case): other spellings of the hyphen data types with a lone `-` token in the default
     out.append([q("a", "datetime", default="2020-01-01 - 1"), q("b", "gps", default="- 5"),
                 {"k": "rep", "name": "r", "kids": [q("c", "q date", default="1 - 2"), q("d", "location", default="12.3 - 45.6")]}])
     # … and what is NOT affected: well-formed literals are single tokens under every spelling
@@ -405,16 +405,6 @@ def explore(ctx, factor, bs):
     }
 
 
-def f47(failure):
-    """F47: utils.default_is_dynamic applies the hyphen exception by type NAME ({"date", "dateTime", "geopoint",
-    "geotrace", "geoshape"}); a question whose type is another spelling of the same data type (`datetime`, `date time`,
-    `q date`, `gps`, `location`, `q geopoint`, …) and whose default holds a lone `-` token before any other dynamic token is
-    classified dynamic (empty node + setvalue) where the data type's rule says static."""
-    e = failure.extra
-    return (failure.kind in ("instance-text", "template-text", "unexpected-setvalue") and e.get("alias_hyphen") is True
-            and e.get("class") == "static" and e.get("type") != e.get("data_type"))
-
-
 def replay(ctx, payload, bs):
     before = len(ctx.failures), len(ctx.mismatches)
     case = payload.get("case") or {}
@@ -435,4 +425,4 @@ def replay(ctx, payload, bs):
 
 
 def main(argv):
-    return vcore.run_check(PROP, explore, RULE, matchers={"F47-hyphen-rule-type-alias": f47}, replay=replay, argv=argv)
+    return vcore.run_check(PROP, explore, RULE, matchers={}, replay=replay, argv=argv)
